@@ -617,6 +617,27 @@ class Repo:
                     return self.modules[rel].classes[cname], None
         return None, None
 
+    def transparent_closure(self, fi, depth=3):
+        """`fi` plus the repo functions it (transitively) calls that did NOT exist on the pinned tree (obligations/known_functions.json): helpers extracted by a
+        later refactoring are part of the function they were extracted from, as far as structural rules are concerned."""
+        from .proto import known_functions
+        known = known_functions()
+        out, todo = [fi], [(fi, 0)]
+        while todo:
+            f, d = todo.pop()
+            if d >= depth:
+                continue
+            for c in f.calls():
+                try:
+                    tg = self.resolve_call(f, c, virtual=False)
+                except Exception:
+                    tg = []
+                for t in tg:
+                    if t.where not in known and not any(t.node is x.node for x in out):
+                        out.append(t)
+                        todo.append((t, d + 1))
+        return out
+
     def resolve_call(self, fi, call, virtual=True):
         """Repo functions a call may invoke -> list[FuncInfo] (empty when external/unknown)."""
         f = call.func
